@@ -85,7 +85,10 @@ func snapshotGoroutines() idleSnap {
 			note("slowpath", state == "chan receive" && strings.HasSuffix(top, "router.(*dataPlane).runSlowPathProcessor"),
 				&s.Idle.SlowPath, &s.Busy.SlowPath)
 		case has("udpip.(*udpConnection).send("):
-			note("sender", state == "chan receive" &&
+			// the only blocking point of the send loop is the blocking read of
+			// its queue in readUpTo (a plain receive, or a select if the queue
+			// read is combined with a stop channel)
+			note("sender", (state == "chan receive" || state == "select") &&
 				(strings.HasSuffix(top, "udpip.readUpTo") || strings.HasSuffix(top, "udpip.(*udpConnection).send")),
 				&s.Idle.Senders, &s.Busy.Senders)
 		case has("udpip.(*udpConnection).receive(") && state == "chan receive" && strings.HasSuffix(top, "router.(*PacketPool).Get"):
